@@ -12,7 +12,7 @@
 // package and builds the whole farm with the Go compiler.  One case per (program, target,
 // options) is written as a Gallina term (IFaceJudge.c19_case) and as JSON.
 //
-//	c19 -seed N -out PREFIX -work DIR -mode corpus|random|progs [-n COUNT] [-progs FILE]
+//	c19 -seed N -out PREFIX -work DIR -mode corpus|random|shapes|progs [-n COUNT] [-progs FILE]
 package main
 
 import (
@@ -60,6 +60,8 @@ type gty struct {
 	Elem     *gty   `json:"elem,omitempty"`
 	Key      *gty   `json:"key,omitempty"`
 	N        int64  `json:"n,omitempty"`
+	LenConst string `json:"lenconst,omitempty"` // source spells the array length as this constant (value N)
+	LenPkg   string `json:"lenpkg,omitempty"`   // package declaring LenConst ("" = the program's own)
 	Ps       []gpar `json:"ps,omitempty"`
 	Rs       []gpar `json:"rs,omitempty"`
 	Variadic bool   `json:"variadic,omitempty"`
@@ -218,6 +220,9 @@ func (fp *filePrinter) ty(t *gty) string {
 	case "slice":
 		return "[]" + fp.ty(t.Elem)
 	case "array":
+		if t.LenConst != "" {
+			return "[" + fp.qual(t.LenPkg) + t.LenConst + "]" + fp.ty(t.Elem)
+		}
 		return "[" + strconv.FormatInt(t.N, 10) + "]" + fp.ty(t.Elem)
 	case "map":
 		return "map[" + fp.ty(t.Key) + "]" + fp.ty(t.Elem)
@@ -303,6 +308,8 @@ func (LocErr) Error() string { return "" }
 
 type LocCtx interface{ pctx.Context }
 type LocFn func(int) string
+
+const LocSize = 3
 `
 
 // sources returns the files of a program package.
@@ -367,6 +374,8 @@ type Err struct{}
 func (*Err) Error() string { return "" }
 
 type A = T
+
+const Size = 2
 
 // E is meant to be embedded.
 type E struct{}
@@ -855,7 +864,7 @@ func checkIntent(p *prog, pkg *packages.Package) {
 func main() {
 	seed := flag.Uint64("seed", 1, "PRNG seed")
 	prefix := flag.String("out", "c19", "output prefix")
-	mode := flag.String("mode", "random", "corpus|random|progs")
+	mode := flag.String("mode", "random", "corpus|random|shapes|progs")
 	n := flag.Int("n", 40, "number of random programs")
 	work := flag.String("work", "", "directory for the scratch farm module")
 	progsFile := flag.String("progs", "", "JSON list of program descriptions (mode progs)")
@@ -879,6 +888,14 @@ func main() {
 	switch *mode {
 	case "corpus":
 		progs = corpus()
+	case "shapes":
+		for i := 0; i < *n; i++ {
+			if i%3 == 2 {
+				progs = append(progs, embedNameProgram(r, fmt.Sprintf("s%d", i), "shapes", nil))
+			} else {
+				progs = append(progs, shapeProgram(r, fmt.Sprintf("s%d", i), "shapes"))
+			}
+		}
 	case "progs":
 		b, err := os.ReadFile(*progsFile)
 		if err != nil {
